@@ -109,6 +109,15 @@ CLAIMED = {
                 note="Relative to an assumed shapely contract (intersection area is a function of the two footprints within [0, min area]; footprint area positive) and assumed numpy "
                      "vector contracts. That the clipped polygon is the true intersection, the rotated footprint, plane distance (numpy argsort / fancy indexing) and 2-D ROIs are "
                      "decided only by the bounded native harness (independent Sutherland-Hodgman clipper, 400 box pairs + 300 ROI pairs per run). Floats as reals.", ref="5/C06"),
+    "C12": dict(text="Relative to ONE assumed contract (common.point.crop_pointcloud selects exactly the points on the requested side of the prism), the real code is verified with point "
+                     "clouds as abstract point sets: DynamicObject.crop_pointcloud / get_inside_pointcloud_num / point_exist use the object's own corners at the given scale and the "
+                     "requested side; DynamicObjectWithSensingResult.__init__ (count, detected iff count >= threshold, occluded iff visibility NONE); "
+                     "_evaluate_pointcloud_for_detection (loop invariant over ghost counts: every ground truth lands in exactly one of success / fail / warning, by those flags); "
+                     "_evaluate_pointcloud_for_non_detection (nested loops: a reported cloud holds exactly the points of its area cloud outside every scaled box and is reported iff "
+                     "non-empty); SensingFrameConfig scale factor is the linear interpolation; inside/outside partition lemma.",
+                note="crop_pointcloud's numpy body (winding number with a uint8 counter), get_corners geometry, monotonicity in the scale and the manager's crop are NOT proved: "
+                     "bounded native harness against an independent ray-casting test (150 boxes + prisms, 60 frames per run). Clouds are sets: duplicates / row order not modelled.",
+                ref="5/C12"),
     "C19": dict(text="The per-object status tallies are verified for all lists of frame results: GroundTruthStatus.__init__ (five new, separate, empty lists), add_status "
                      "(the frame number goes to `total` and to exactly the list of its status), get_object_status (nested loops over the four pass/fail lists with "
                      "loop invariants over ghost counts: for an arbitrary uuid u, an entry exists iff some TP / FP-labelled matched FP / TN / FN item carries u, it is unique, "
@@ -143,7 +152,6 @@ def main():
 
 NA = {
  "C07": "decided only as leaf agreements inside C03 (both filters get the frame's transforms), C09 (both frame branches of the APH weight), C10 (ego-relative position through the registry) and C18; the whole-pipeline frame-read audit was not built, so the property is not claimed",
- "C12": "crop_pointcloud is vectorised numpy with a uint8 winding counter; the lifted per-row executor it needs was not built (DESIGN.md section 7)",
  "C16": "the loader is glue around nuscenes-devkit and file I/O; pose semantics and table reading are the devkit's, no contract within reach",
 }
 if __name__ == "__main__":
